@@ -5,7 +5,7 @@ import multiprocessing as mp
 
 import hv.symx.core  # noqa: F401
 from hv.props import _scopes as sc
-from hv.props._scopes import GLOBAL, LOG, NONLOCAL, SETV
+from hv.props._scopes import GLOBAL, LOG, LOG2, NONLOCAL, SETV
 
 META = {
     "engine": "symx+pyvc",
@@ -30,7 +30,7 @@ META = {
 LEVELS = [("let", ("x",)), ("let", ("y",)), ("let", ("x", "y")), ("fn",), ("defn",), ("later", "x"), ("lfor", "x"), ("let2", "x"), ("lforx", "x")]
 PRE = [(), (SETV("x"),), (LOG("x"),)]
 POST = [(LOG("x"),), (LOG("x"), LOG("y")), (SETV("x"), LOG("x"))]
-INNER = [(LOG("x"), LOG("y")), (SETV("x"), LOG("x")), (LOG("x"), SETV("y"), LOG("y")), (SETV("y"), SETV("x"), LOG("x"), LOG("y"))]
+INNER = [(LOG("x"), LOG("y")), (SETV("x"), LOG("x")), (LOG2("x"), SETV("y"), LOG("y")), (SETV("y"), SETV("x"), LOG("x"), LOG("y"))]
 PROGS = []
 
 
